@@ -57,3 +57,4 @@ def run(check: Check, repo: Repo, tier: str) -> None:
     from rules import exec_rules as X
     X.attr_memo(check, repo, [repo.mod(m) for m in ("utilities.extend_schema", "utilities.build_ast_schema", "utilities.coerce_input_value", "utilities.get_default_value_ast", "utilities.lexicographic_sort_schema")])
     check.floor("ATTR-MEMO", 1, "object-attribute memos reachable from schema printing / extension")
+    D.or_fold(check, repo)
